@@ -18,7 +18,7 @@ import (
 	"golang.org/x/tools/go/ssa"
 )
 
-const maxAlts = 24
+const maxAlts = 32
 
 type Alt struct {
 	facts map[string]bool
@@ -140,27 +140,84 @@ func normalizeDNF(d DNF, forceCollapse bool) (DNF, bool) {
 	}
 	out = kept
 	collapsed := false
-	if len(out) > maxAlts || (forceCollapse && len(out) > 1) {
+	if forceCollapse && len(out) > 1 {
 		collapsed = true
-		m := out[0].clone()
+		m := out[0]
 		for _, a := range out[1:] {
-			for k, v := range m.facts {
-				if av, ok := a.facts[k]; !ok || av != v {
-					delete(m.facts, k)
-					delete(m.terms, k)
-				}
-			}
-			for k, v := range m.bind {
-				if av, ok := a.bind[k]; !ok || av.String() != v.String() {
-					delete(m.bind, k)
-					delete(m.bkey, k)
-				}
-			}
+			m = meetAlts(m, a)
 		}
 		out = DNF{m}
+	} else if len(out) > maxAlts {
+		// too many alternatives: repeatedly merge the two closest ones (their meet is implied by both,
+		// so facts are only dropped, never invented) until the set is small again
+		collapsed = false
+		for len(out) > maxAlts*2/3 {
+			bi, bj, best := -1, -1, 1<<30
+			for i := 0; i < len(out); i++ {
+				for j := i + 1; j < len(out); j++ {
+					d := altDistance(out[i], out[j])
+					if d < best {
+						bi, bj, best = i, j, d
+					}
+				}
+			}
+			m := meetAlts(out[bi], out[bj])
+			var next DNF
+			for k, a := range out {
+				if k != bi && k != bj && !weaker(m, a) {
+					next = append(next, a)
+				}
+			}
+			next = append(next, m)
+			out = next
+		}
 	}
 	sort.Slice(out, func(i, j int) bool { return out[i].signature() < out[j].signature() })
 	return out, collapsed
+}
+
+// meetAlts: the facts and bindings common to a and b.
+func meetAlts(a, b *Alt) *Alt {
+	m := newAlt()
+	for k, v := range a.facts {
+		if bv, ok := b.facts[k]; ok && bv == v {
+			m.facts[k] = v
+			m.terms[k] = a.terms[k]
+		}
+	}
+	for k, v := range a.bind {
+		if bv, ok := b.bind[k]; ok && bv.String() == v.String() {
+			m.bind[k] = v
+			m.bkey[k] = a.bkey[k]
+		}
+	}
+	return m
+}
+
+// altDistance: number of facts/bindings not shared.
+func altDistance(a, b *Alt) int {
+	d := 0
+	for k, v := range a.facts {
+		if bv, ok := b.facts[k]; !ok || bv != v {
+			d++
+		}
+	}
+	for k, v := range b.facts {
+		if av, ok := a.facts[k]; !ok || av != v {
+			d++
+		}
+	}
+	for k, v := range a.bind {
+		if bv, ok := b.bind[k]; !ok || bv.String() != v.String() {
+			d += 2
+		}
+	}
+	for k := range b.bind {
+		if _, ok := a.bind[k]; !ok {
+			d += 2
+		}
+	}
+	return d
 }
 
 func dnfSig(d DNF) string {
@@ -236,6 +293,9 @@ func (fe *FactEngine) decompose(cond *Term, sign bool) []atom {
 	case OpNot:
 		return fe.decompose(cond.Args[0], !sign)
 	case OpConst:
+		if (cond.Name == "true" && !sign) || (cond.Name == "false" && sign) {
+			return []atom{{"⊥", cond, true}}
+		}
 		return nil
 	case OpBin:
 		x, y := cond.Args[0], cond.Args[1]
@@ -246,6 +306,12 @@ func (fe *FactEngine) decompose(cond *Term, sign bool) []atom {
 				s = !s
 			}
 			// s: x == y
+			if x.Op == OpConst && y.Op == OpConst {
+				if (x.Name == y.Name) != s {
+					return []atom{{"⊥", cond, true}}
+				}
+				return nil
+			}
 			if y.IsConst("nil") {
 				return []atom{{"n:" + x.String(), x, !s}}
 			}
@@ -289,6 +355,9 @@ func (fe *FactEngine) decompose(cond *Term, sign bool) []atom {
 // addAtoms adds atoms to alt; returns false on contradiction.
 func (a *Alt) addAtoms(as []atom) bool {
 	for _, at := range as {
+		if at.key == "⊥" {
+			return false
+		}
 		if v, ok := a.facts[at.key]; ok {
 			if v != at.sign {
 				return false
@@ -390,14 +459,26 @@ func (fe *FactEngine) killCall(a *Alt, fn *ssa.Function, ins ssa.Instruction, c 
 	if c.IsInvoke() {
 		ops = append(ops, c.Value)
 	}
+	targets := fe.cg.SiteOut[ins]
+	allModule := len(targets) > 0 && !c.IsInvoke() && !fe.cg.Unres[ins]
+	for _, e := range targets {
+		if e.Callback {
+			allModule = false
+		}
+	}
 	for _, arg := range ops {
-		if _, isPtr := arg.Type().Underlying().(*types.Pointer); !isPtr {
+		pt, isPtr := arg.Type().Underlying().(*types.Pointer)
+		if !isPtr {
+			continue
+		}
+		if _, isStruct := pt.Elem().Underlying().(*types.Struct); isStruct && allModule {
+			// module callees: their field-based mod set (below) says which fields they write through
+			// the pointer; the other fields of the local keep their facts
 			continue
 		}
 		markLocalRoot(arg, fe.ts, locals)
 	}
 	// closures invoked / deferred here write the locals they capture
-	targets := fe.cg.SiteOut[ins]
 	modFields := map[*types.Var]bool{}
 	for _, e := range targets {
 		if e.Mode == ModeGo {
@@ -563,6 +644,9 @@ func (fe *FactEngine) step(ff *fnFacts, ins ssa.Instruction, st DNF, depth int) 
 			}
 			if vKnown && isPointerLike(ins.Val.Type()) && !v.Contains(p) {
 				a.addAtoms([]atom{{"n:" + v.String(), v, vNonNil}})
+			}
+			if v.Op == OpConst && rootedAtLocal(p) && !strings.HasPrefix(v.Name, "zero:") {
+				a.setBind(p, v)
 			}
 			if v.Op != OpConst && !v.Contains(p) && rootedAtLocal(p) {
 				// the local now holds v on this path
@@ -970,23 +1054,44 @@ func (fe *FactEngine) importSummary(st DNF, at atom, depth int) DNF {
 			sub[fe.ts.Of(prm).String()] = t.Args[i]
 		}
 	}
+	// Import without multiplying alternatives: for each alternative, the summary alternatives that are
+	// consistent with it are met (facts common to all of them) and conjoined. If none is consistent
+	// the alternative is infeasible. Rules that need the disjunctive detail call Summary directly.
 	var out DNF
 	for _, a := range st {
+		var meet *Alt
+		feasible := false
 		for _, sa := range sum {
-			na := a.clone()
+			na := newAlt()
 			ok := true
 			for k, v := range sa.facts {
 				nt := sa.terms[k].Subst(sub)
 				nk := k[:2] + nt.String()
-				if !na.addAtoms([]atom{{nk, nt, v}}) {
+				if cur, have := a.facts[nk]; have && cur != v {
 					ok = false
 					break
 				}
+				na.facts[nk] = v
+				na.terms[nk] = nt
 			}
-			if ok {
-				out = append(out, na)
+			if !ok {
+				continue
+			}
+			feasible = true
+			if meet == nil {
+				meet = na
+			} else {
+				meet = meetAlts(meet, na)
 			}
 		}
+		if !feasible {
+			continue
+		}
+		r := a.clone()
+		for k, v := range meet.facts {
+			r.addAtoms([]atom{{k, meet.terms[k], v}})
+		}
+		out = append(out, r)
 	}
 	if len(sum) > 0 && len(out) == 0 {
 		return nil // contradiction with the summary: infeasible
